@@ -133,7 +133,7 @@ func c14Check(r *hx.Run, locs []locSpec, names []string, host, uri string, ls *l
 }
 
 func c14(r *hx.Run) {
-	r.Rule = "exhaustive: every ordered tuple of <=3 location shapes (host subset of {h1,h2} x prefix subset of {/a,/a/b,/b}) x every subset of the location names x 15 queries ({h1,h2,h3} x {/a/x,/a/b/x,/b,/c,/}); sampled tuples of 4; random larger universes; then end-to-end configs through a real server (incl. percent-encoded request URIs, which are matched as sent) with one origin per location (which origin saw the request). Non-trivial = lookup with >=2 matching named locations of different classes or no match; distinct = (shape tuple, names, query)."
+	r.Rule = "exhaustive: every ordered tuple of <=3 location shapes (host subset of {h1,h2} x prefix subset of {/a,/a/b,/b}) x every subset of the location names x 15 queries ({h1,h2,h3} x {/a/x,/a/b/x,/b,/c,/}); sampled tuples of 4; random larger universes (prefix lengths 1..236, so that length differences inside and across classes are large); then end-to-end configs through a real server (incl. percent-encoded request URIs, which are matched as sent) with one origin per location (which origin saw the request). Non-trivial = lookup with >=2 matching named locations of different classes or no match; distinct = (shape tuple, names, query)."
 	r.Assume = []string{"ties inside one class are left to pike (any member accepted)"}
 	rnd := rand.New(rand.NewSource(r.Seed))
 	hostSets := subsets([]string{"h1", "h2"})
@@ -214,7 +214,9 @@ func c14(r *hx.Run) {
 	for i := 0; i < big && !r.TooMany(); i++ {
 		nl := 1 + rnd.Intn(8)
 		hosts := []string{"a.com", "b.com", "a.com.cn", "c.org", "A.com"}
-		prefs := []string{"/", "/api", "/api/", "/api/v1", "/apix", "/static", "/s", "/API"}
+		long1 := "/api/v1/internal/reports/export/monthly"
+		long2 := "/static/" + strings.Repeat("assets-and-bundles/", 12)
+		prefs := []string{"/", "/api", "/api/", "/api/v1", "/apix", "/static", "/s", "/API", long1, long2}
 		locs := make([]locSpec, nl)
 		opts := make([]location.Location, nl)
 		for j := range locs {
@@ -241,7 +243,7 @@ func c14(r *hx.Run) {
 		}
 		for q := 0; q < 6; q++ {
 			h := append(hosts, "zzz")[rnd.Intn(len(hosts)+1)]
-			u := []string{"/", "/api", "/api/v1/x?y=1", "/apix/1", "/static/a.js", "/s", "/other", "/API/x"}[rnd.Intn(8)]
+			u := []string{"/", "/api", "/api/v1/x?y=1", "/apix/1", "/static/a.js", "/s", "/other", "/API/x", long1 + "/2024.csv", long2 + "app.js", long1[:20]}[rnd.Intn(11)]
 			c14Check(r, locs, names, h, u, ls)
 		}
 		r.Add("random_universe_configs", 1)
